@@ -6,7 +6,7 @@ REGEN = dict(_C06_REGEN)
 PROP = dict(
     level='proof',
     regen=['consts'],
-    theorems=['Fit.C10.C10_validate_iff_spec', 'Fit.C10.C10_validate_filter', 'Fit.C10.C10_post', 'Fit.C10.C10_post_v1', 'Fit.C10.C10_def_sizes_are_bytes', 'Fit.C10.C10_reject', 'Fit.C10.C10_reject_batch', 'Fit.C10.C10_gate_no_panic', 'Fit.C10.C10_accept_batch', 'Fit.C10.C10_idempotent_partial', 'Fit.C10.C10_idempotent_full_fails_rescale', 'Fit.C10.C10_idempotent_full_fails_empty'],
+    theorems=['Fit.C10.C10_validate_iff_spec', 'Fit.C10.C10_validate_filter', 'Fit.C10.C10_post', 'Fit.C10.C10_post_v1', 'Fit.C10.C10_def_sizes_are_bytes', 'Fit.C10.C10_reject', 'Fit.C10.C10_reject_batch', 'Fit.C10.C10_gate_no_panic', 'Fit.C10.C10_accept_batch', 'Fit.C10.C10_idempotent_partial', 'Fit.C10.C10_idempotent_full_fails_rescale'],
     families=[dict(name='validate', prop=True), dict(name='proto-validate', prop=True)],
     trusted_base=STD_TRUST + [
         "scaleoffset.DiscardValue on float64-typed values (binary64 arithmetic + conversion, C12) is a parameter of the model; the driver instantiates it with the results of the real function carried in each operation line (dv: table)",
@@ -19,6 +19,6 @@ PROP = dict(
 
 TEXT = dict(
     technique='Lean 4 proof: model of encoder.messageValidator.Validate, proto.Validator and the order in which the encoder calls them; the loops are proved equal to a declarative specification (filter keep / map restore + writability conditions); differential tie on generated message sequences incl. the real Encoder / StreamEncoder gates',
-    text='C10: accepted messages satisfy the protocol limits, unwritable ones are rejected, validation = filter/map, idempotence (partial), definition sizes are bytes; no panic for any message (nil FieldBase under protocol 1.0, F11, was reported by this check and is repaired in /repo: fixed entry KF-C10-1).',
+    text='C10: accepted messages satisfy the protocol limits, unwritable ones are rejected, validation = filter/map, idempotence (partial), definition sizes are bytes; no panic for any message (nil FieldBase under protocol 1.0, F11, was reported by this check and is repaired in /repo: fixed entry KF-C10-1); an accepted message is never empty (a message of which no field and no developer field survives was accepted as the empty message; reported by this check and repaired in /repo: fixed entry KF-C10-3).',
     note='Trusted: Lean kernel; consts translator; line protocol; DiscardValue arithmetic and factory look-ups are inputs of the model (carried in the line, produced by the real code).',
 )
